@@ -23,6 +23,7 @@ Proof. reflexivity. Qed.
 From V Require Import Proofs.C02.
 
 Section C10.
+Set Default Proof Using "Type".
 Context {K RK : Type}.
 Context (kdf : Z -> Z -> K -> Z -> Z -> K).
 Context (l1seed : RK -> Z -> Z -> Z -> K).
@@ -104,7 +105,7 @@ Lemma store_key_cases (c : cacheT) sd e :
   (store_key c sd e = set_seed c (c_rk e, sd, c_l0 e) e /\
    forall x, find_seed (seeds c) (c_rk e, sd, c_l0 e) = Some x -> pos_lt x e)
   \/ (store_key c sd e = c /\ exists x, find_seed (seeds c) (c_rk e, sd, c_l0 e) = Some x /\ pos_le e x).
-Proof.
+Proof using Type. clear dc kdf l1seed nokey truth.
   destruct kernels_meaning as (_ & Hs & _).
   unfold store_key, pos_lt, pos_le. cbv zeta.
   destruct (find_seed (seeds c) (c_rk e, sd, c_l0 e)) as [x|] eqn:E.
@@ -151,7 +152,7 @@ Lemma Inv_empty : Inv empty_cache.
 Proof. split; cbn; intros; discriminate. Qed.
 
 Lemma Inv_load c rk d : Inv c -> agrees rk d -> Inv (load_key c rk d).
-Proof.
+Proof using Type. clear dc.
   intros [Hr Hs] Hd. split; [|exact Hs].
   intros rk' d'. cbn [load_key roots find_root]. destruct (rk =? rk') eqn:E.
   - intros H. assert (d = d') by congruence. assert (rk = rk') by lia. subst. exact Hd.
@@ -178,7 +179,7 @@ Proof. intros [_ (H1 & H2 & _)]. exact (conj H1 H2). Qed.
 Lemma get_key_sound c sd rk l0 l1 l2 e c1 : Inv c -> get_key' c sd rk l0 l1 l2 = (Some e, c1) ->
   Inv c1 /\ find_seed (seeds c1) (rk, sd, l0) = Some e /\ c_rk e = rk /\ c_l0 e = l0 /\ conf sd e /\
   (l1 <= 31 -> l2 <= 31 -> covers_at e l1 l2).
-Proof.
+Proof using Type. clear dc.
   intros HI G. destruct (get_key_cases c sd rk l0 l1 l2) as [(x & Hx & Hcov & G')|(_ & [(d & Hd & G')|(_ & G')])];
     rewrite G' in G; [| |discriminate]; assert (e' := G); apply (f_equal fst) in e'; apply (f_equal snd) in G; cbn [fst snd] in *.
   - assert (x = e) by congruence. subst x c1. destruct (proj2 HI _ _ _ _ Hx) as (A & B & C). auto 10.
@@ -196,21 +197,21 @@ Proof.
 Qed.
 
 Lemma Inv_get_key c sd rk l0 l1 l2 : Inv c -> Inv (snd (get_key' c sd rk l0 l1 l2)).
-Proof.
+Proof using Type. clear dc.
   intros HI. destruct (get_key' c sd rk l0 l1 l2) as [[e|] c1] eqn:G; cbn [snd].
   - exact (proj1 (get_key_sound _ _ _ _ _ _ _ _ HI G)).
   - apply get_key_none in G. destruct G as [-> _]. exact HI.
 Qed.
 
 Lemma Inv_store_key c sd e : Inv c -> conf sd e -> Inv (store_key c sd e).
-Proof.
+Proof using Type. clear dc nokey.
   intros HI He. destruct (store_key_cases c sd e) as [[-> _]|[-> _]]; [|exact HI].
   apply Inv_set_seed; auto.
 Qed.
 
 (* the entry already there is at or after e: _store_key keeps it *)
 Lemma store_key_noop c sd e x : find_seed (seeds c) (c_rk e, sd, c_l0 e) = Some x -> pos_le e x -> store_key c sd e = c.
-Proof.
+Proof using Type. clear dc kdf l1seed nokey truth.
   intros Hx Hle. destruct (store_key_cases c sd e) as [[_ H]|[-> _]]; [|reflexivity].
   specialize (H _ Hx). unfold pos_lt, pos_le in *. lia.
 Qed.
@@ -218,7 +219,7 @@ Qed.
 (* after _store_key the triple holds an entry at or after e *)
 Lemma store_key_entry c sd e :
   exists x, find_seed (seeds (store_key c sd e)) (c_rk e, sd, c_l0 e) = Some x /\ pos_le e x.
-Proof.
+Proof using Type. clear dc kdf l1seed nokey truth.
   destruct (store_key_cases c sd e) as [[-> _]|[-> (x & Hx & Hle)]].
   - exists e. split; [apply find_seed_set_same|]. unfold pos_le. lia.
   - exists x. auto.
@@ -227,14 +228,14 @@ Qed.
 (* ---- key derivation from invariant-respecting envelopes (C02) ---- *)
 Lemma derive_conf sd e l1 l2 : conf sd e -> 0 <= l1 <= 31 -> 0 <= l2 <= 31 -> covers_at e l1 l2 ->
   derive kdf e l1 l2 = Ok (key_at (c_rk e) sd (c_l0 e) l1 l2).
-Proof.
+Proof using Type. clear dc.
   intros [_ Hc] H1 H2 Hcov. unfold derive, key_at.
   apply (chain (kdf (c_rk e) (c_l0 e)) (top (c_rk e) sd (c_l0 e)) L2FUEL (cenv_env e) l1 l2 Hc H1 H2 Hcov).
   unfold L2FUEL. lia.
 Qed.
 
 Lemma derive_ok_covers e l1 l2 k : derive kdf e l1 l2 = Ok k -> 0 <= l1 <= 31 /\ 0 <= l2 <= 31 /\ covers_at e l1 l2.
-Proof.
+Proof using RK. clear dc l1seed truth.
   intros H. unfold covers_at.
   assert (D : (0 <= l1 <= 31 /\ 0 <= l2 <= 31 /\ (c_l1 e > l1 \/ c_l1 e = l1 /\ c_l2 e >= l2)) \/
               ~ (0 <= l1 <= 31 /\ 0 <= l2 <= 31 /\ (c_l1 e > l1 \/ c_l1 e = l1 /\ c_l2 e >= l2))) by lia.
@@ -246,13 +247,13 @@ Qed.
 (* ---- the tails of the calls ---- *)
 Lemma Inv_unprotect_finish c sd l0 l1 l2 e n : Inv c -> (c_pub e = false -> conf sd e) ->
   Inv (snd (unprotect_finish kdf c sd l0 l1 l2 e n)).
-Proof.
+Proof using Type. clear dc nokey.
   intros HI He. unfold unprotect_finish. cbv zeta. cbn [snd].
   destruct (c_pub e); [exact HI|]. apply Inv_store_key; auto.
 Qed.
 Lemma Inv_protect_finish c sd e n : Inv c -> (c_pub e = false -> conf sd e) ->
   Inv (snd (protect_finish c sd e n)).
-Proof.
+Proof using Type. clear dc nokey.
   intros HI He. unfold protect_finish. cbv zeta. cbn [snd].
   destruct (c_pub e); [exact HI|]. apply Inv_store_key; auto.
 Qed.
@@ -262,7 +263,7 @@ Lemma unprotect_finish_key c sd rk l0 l1 l2 e n : conf sd e -> c_rk e = rk -> c_
   0 <= l1 <= 31 -> 0 <= l2 <= 31 -> covers_at e l1 l2 ->
   fst (unprotect_finish kdf c sd l0 l1 l2 e n) =
   {| o_key := Ok (key_at rk sd l0 l1 l2); o_pos := (l0, l1, l2); o_pub := false; o_rpcs := n |}.
-Proof.
+Proof using Type. clear dc.
   intros Hc Hrk Hl0 H1 H2 Hcov. unfold unprotect_finish. cbv zeta. cbn [fst].
   rewrite (derive_conf sd e l1 l2 Hc H1 H2 Hcov). destruct Hc as [Hp _]. rewrite Hp, Hrk, Hl0, Z.eqb_refl. reflexivity.
 Qed.
@@ -293,7 +294,7 @@ Qed.
 Lemma prot_env_not_stored c sd rk l0 l1 l2 e c1 k : Inv c ->
   get_key' c sd rk l0 l1 l2 = (Some e, c1) -> derive kdf e l1 l2 = Ok k ->
   store_key c1 sd (prot_env rk l0 l1 l2 (c_pub e) k) = c1.
-Proof.
+Proof using Type. clear dc.
   intros HI G D. destruct (get_key_sound _ _ _ _ _ _ _ _ HI G) as (_ & Hf & _).
   apply derive_ok_covers in D. destruct D as (_ & _ & Hcov).
   apply (store_key_noop c1 sd _ e); [exact Hf|]. unfold pos_le, covers_at, prot_env in *. cbn [c_l1 c_l2]. lia.
@@ -378,12 +379,12 @@ Proof.
   - intros rk' H. cbn [load_key roots find_root]. destruct (rk =? rk'); [discriminate|exact H].
 Qed.
 Lemma grows_store c sd e : grows c (store_key c sd e).
-Proof.
+Proof using Type. clear dc kdf l1seed nokey truth.
   destruct (store_key_cases c sd e) as [[-> H]|[-> _]]; [|apply grows_refl].
   apply grows_set_seed. intros x Hx. specialize (H _ Hx). unfold pos_lt, pos_le in *. lia.
 Qed.
 Lemma grows_get_key c sd rk l0 l1 l2 : Inv c -> grows c (snd (get_key' c sd rk l0 l1 l2)).
-Proof.
+Proof using Type. clear dc.
   intros HI. destruct (get_key_cases c sd rk l0 l1 l2) as [(x & Hx & Hcov & G)|(_ & [(d & Hd & G)|(_ & G)])];
     rewrite G; cbn [snd]; try apply grows_refl.
   apply grows_set_seed. intros x Hx. destruct (proj2 HI _ _ _ _ Hx) as (_ & _ & Hc). apply conf_range in Hc.
@@ -396,12 +397,12 @@ Definition moves c c' : Prop :=
   (exists sd rk l0 l1 l2, c' = snd (get_key' c sd rk l0 l1 l2)) \/
   (exists sd e, conf sd e /\ c' = store_key c sd e).
 Lemma Inv_moves c c' : Inv c -> moves c c' -> Inv c'.
-Proof.
+Proof using Type. clear dc.
   intros HI [->|[(rk & d & Hd & ->)|[(sd & rk & l0 & l1 & l2 & ->)|(sd & e & He & ->)]]];
     auto using Inv_load, Inv_get_key, Inv_store_key.
 Qed.
 Lemma grows_moves c c' : Inv c -> moves c c' -> grows c c'.
-Proof.
+Proof using Type. clear dc.
   intros HI [->|[(rk & d & Hd & ->)|[(sd & rk & l0 & l1 & l2 & ->)|(sd & e & He & ->)]]];
     auto using grows_refl, grows_load, grows_get_key, grows_store.
 Qed.
@@ -449,11 +450,11 @@ Hypothesis dc_explicit : dc_explicit_ok.
 Hypothesis dc_conforming : dc_conforming_ok.
 
 Lemma dc_adm sd rko l0 l1 l2 : c_pub (dc sd rko l0 l1 l2) = false -> adm sd (dc sd rko l0 l1 l2).
-Proof. intros H. destruct (dc_conforming sd rko l0 l1 l2 H) as (_ & _ & A & B). split; [split|]; assumption. Qed.
+Proof using dc_conforming. intros H. destruct (dc_conforming sd rko l0 l1 l2 H) as (_ & _ & A & B). split; [split|]; assumption. Qed.
 
 Lemma step_moves w ev : Inv (w_cache w) -> Forall pend_conf (w_pending w) -> ev_true ev ->
   (exists cm, moves (w_cache w) cm /\ moves cm (w_cache (step' w ev))) /\ Forall pend_conf (w_pending (step' w ev)).
-Proof.
+Proof using dc_conforming.
   intros HI HP Hev. destruct ev as [[rk d|sd rk l0 l1 l2|sd rko l0 l1 l2]|i].
   - split; [|exact HP]. exists (w_cache w). split; [left; reflexivity|].
     right; left. exists rk, d. split; [exact Hev|reflexivity].
@@ -494,24 +495,24 @@ Qed.
 (* Inv (and the sanity of what is in flight) is preserved by EVERY event; only loads are constrained *)
 Definition WInv w : Prop := Inv (w_cache w) /\ Forall pend_conf (w_pending w).
 Lemma step_WInv w ev : WInv w -> ev_true ev -> WInv (step' w ev).
-Proof.
+Proof using dc_conforming.
   intros [HI HP] Hev. destruct (step_moves w ev HI HP Hev) as [(cm & M1 & M2) HP']. split; [|exact HP'].
   eauto using Inv_moves.
 Qed.
 Lemma step_grows w ev : WInv w -> ev_true ev -> grows (w_cache w) (w_cache (step' w ev)).
-Proof.
+Proof using dc_conforming.
   intros [HI HP] Hev. destruct (step_moves w ev HI HP Hev) as [(cm & M1 & M2) _].
   eapply grows_trans; [exact (grows_moves _ _ HI M1)|]. apply grows_moves; [|exact M2]. eauto using Inv_moves.
 Qed.
 Lemma WInv_init : WInv init_world.
 Proof. split; [exact Inv_empty|constructor]. Qed.
 Lemma fold_WInv evs w : WInv w -> Forall ev_true evs -> WInv (fold_left step' evs w).
-Proof.
+Proof using dc_conforming.
   revert w. induction evs as [|ev evs IH]; intros w HW HA; [exact HW|].
   inversion HA; subst. cbn [fold_left]. apply IH; [apply step_WInv|]; assumption.
 Qed.
 Lemma fold_grows evs w : WInv w -> Forall ev_true evs -> grows (w_cache w) (w_cache (fold_left step' evs w)).
-Proof.
+Proof using dc_conforming.
   revert w. induction evs as [|ev evs IH]; intros w HW HA; [apply grows_refl|].
   inversion HA; subst. cbn [fold_left]. eapply grows_trans; [apply step_grows; eassumption|].
   apply IH; [apply step_WInv|]; assumption.
@@ -519,12 +520,12 @@ Qed.
 
 (* 1. the invariant holds in every reachable world, whatever the interleaving *)
 Theorem Inv_reachable evs : Forall ev_true evs -> Inv (w_cache (run' evs)).
-Proof. intros H. exact (proj1 (fold_WInv evs init_world WInv_init H)). Qed.
+Proof using dc_conforming. intros H. exact (proj1 (fold_WInv evs init_world WInv_init H)). Qed.
 
 (* 3. along any history the position cached for a triple never decreases (and loaded roots stay) *)
 Theorem monotone evs1 evs2 : Forall ev_true (evs1 ++ evs2) ->
   grows (w_cache (run' evs1)) (w_cache (run' (evs1 ++ evs2))).
-Proof.
+Proof using dc_conforming.
   intros H. apply Forall_app in H. destruct H as [H1 H2]. unfold run_events. rewrite fold_left_app.
   apply fold_grows; [apply fold_WInv; [exact WInv_init|exact H1]|exact H2].
 Qed.
@@ -533,7 +534,7 @@ Qed.
 Lemma good_unprotect_finish c sd l0 l1 l2 e n :
   (c_pub e = false -> adm sd e /\ c_l0 e = l0 /\ c_l1 e = l1 /\ c_l2 e = l2) ->
   good_outcome (fst (unprotect_finish kdf c sd l0 l1 l2 e n)).
-Proof.
+Proof using Type. clear dc_explicit dc_conforming dc.
   intros H Hp. assert (Hp' : c_pub e = false) by exact Hp. destruct (H Hp') as ([Hc _] & E0 & E1 & E2).
   pose proof (conf_range _ _ Hc) as [R1 R2]. rewrite E1 in R1. rewrite E2 in R2.
   rewrite (unprotect_finish_key c sd (c_rk e) l0 l1 l2 e n Hc eq_refl E0 R1 R2) by (unfold covers_at; lia).
@@ -552,7 +553,7 @@ Lemma unprotect_hit_outcome c sd rk l0 l1 l2 e c1 n : Inv c -> get_key' c sd rk 
   0 <= l1 <= 31 -> 0 <= l2 <= 31 ->
   fst (unprotect_finish kdf c1 sd l0 l1 l2 e n) =
   {| o_key := Ok (key_at rk sd l0 l1 l2); o_pos := (l0, l1, l2); o_pub := false; o_rpcs := n |}.
-Proof.
+Proof using Type. clear dc_explicit dc_conforming dc.
   intros HI G R1 R2. destruct (get_key_sound _ _ _ _ _ _ _ _ HI G) as (_ & _ & Erk & El0 & Hc & Hcov).
   apply unprotect_finish_key; auto. apply Hcov; lia.
 Qed.
@@ -560,7 +561,7 @@ Lemma protect_hit_outcome c sd rk l0 l1 l2 e c1 k n : Inv c -> get_key' c sd rk 
   derive kdf e l1 l2 = Ok k ->
   fst (protect_finish c1 sd (prot_env rk l0 l1 l2 (c_pub e) k) n) =
   {| o_key := Ok (key_at rk sd l0 l1 l2); o_pos := (l0, l1, l2); o_pub := false; o_rpcs := n |}.
-Proof.
+Proof using Type. clear dc_explicit dc_conforming dc.
   intros HI G D. destruct (get_key_sound _ _ _ _ _ _ _ _ HI G) as (_ & _ & Erk & El0 & Hc & _).
   destruct (derive_ok_covers _ _ _ _ D) as (R1 & R2 & Hcov).
   rewrite (derive_conf sd e l1 l2 Hc R1 R2 Hcov), Erk, El0 in D. apply Ok_inj in D. subst k.
@@ -571,7 +572,7 @@ Lemma unprotect_rpc_outcome c sd rk l0 l1 l2 n : 0 <= l0 -> 0 <= l1 <= 31 -> 0 <
   c_pub (dc sd (Some rk) l0 l1 l2) = false ->
   fst (unprotect_finish kdf c sd l0 l1 l2 (dc sd (Some rk) l0 l1 l2) n) =
   {| o_key := Ok (key_at rk sd l0 l1 l2); o_pos := (l0, l1, l2); o_pub := false; o_rpcs := n |}.
-Proof.
+Proof using dc_conforming dc_explicit.
   intros R0 R1 R2 Hp. destruct (dc_explicit sd rk l0 l1 l2 R0 R1 R2) as (Erk & El0 & E1 & E2).
   destruct (dc_adm _ _ _ _ _ Hp) as [Hc _].
   apply unprotect_finish_key; auto. unfold covers_at. lia.
@@ -580,7 +581,7 @@ Qed.
 Lemma step_out w ev : Inv (w_cache w) -> Forall pend_conf (w_pending w) -> Forall pend_pos (w_pending w) -> ev_adm ev ->
   Forall pend_pos (w_pending (step' w ev)) /\
   exists new, w_out (step' w ev) = w_out w ++ new /\ Forall good_outcome new.
-Proof.
+Proof using dc_explicit.
   intros HI HC HP Hev. destruct ev as [[rk d|sd rk l0 l1 l2|sd rko l0 l1 l2]|i].
   - split; [exact HP|]. exists []. split; [symmetry; apply app_nil_r|constructor].
   - destruct Hev as (R0 & R1 & R2). destruct (get_key' (w_cache w) sd rk l0 l1 l2) as [[e|] c1] eqn:G.
@@ -623,13 +624,13 @@ Qed.
 
 Definition WGood w : Prop := WInv w /\ Forall pend_pos (w_pending w) /\ Forall good_outcome (w_out w).
 Lemma step_WGood w ev : WGood w -> ev_adm ev -> WGood (step' w ev).
-Proof.
+Proof using dc_conforming dc_explicit.
   intros (HW & HP & HO) Hev. split; [apply step_WInv; [exact HW|apply ev_adm_true; exact Hev]|].
   destruct HW as [HI HC]. destruct (step_out w ev HI HC HP Hev) as (HP' & new & -> & Hn).
   split; [exact HP'|]. apply Forall_app. auto.
 Qed.
 Lemma fold_WGood evs w : WGood w -> Forall ev_adm evs -> WGood (fold_left step' evs w).
-Proof.
+Proof using dc_conforming dc_explicit.
   revert w. induction evs as [|ev evs IH]; intros w HW HA; [exact HW|].
   inversion HA; subst. cbn [fold_left]. apply IH; [apply step_WGood|]; assumption.
 Qed.
@@ -637,7 +638,7 @@ Qed.
 (* 2. every call completed in any reachable world used the chain key of the position it names
    (never an error, never OutOfFuel), whatever the history and the completion order of the RPCs *)
 Theorem all_outcomes_good evs : Forall ev_adm evs -> Forall good_outcome (w_out (run' evs)).
-Proof.
+Proof using dc_conforming dc_explicit.
   intros H. refine (proj2 (proj2 (fold_WGood evs init_world _ H))).
   split; [exact WInv_init|]. split; constructor.
 Qed.
@@ -667,7 +668,7 @@ Qed.
 Lemma served_load c rk d sd l0 l1 l2 : served (load_key c rk d) rk sd l0 l1 l2.
 Proof. right. exists d. cbn [load_key roots find_root]. rewrite Z.eqb_refl. reflexivity. Qed.
 Lemma served_store c sd e : served (store_key c sd e) (c_rk e) sd (c_l0 e) (c_l1 e) (c_l2 e).
-Proof.
+Proof using Type. clear dc_explicit dc_conforming dc kdf l1seed truth nokey.
   left. destruct (store_key_entry c sd e) as (x & Hx & Hle). exists x. split; [exact Hx|].
   unfold covers_at, pos_le in *. lia.
 Qed.
@@ -732,7 +733,7 @@ Theorem finish_unprotect_rpc w i rk sd l0 l1 l2 :
     {| w_cache := c'; w_pending := remove_nth i (w_pending w);
        w_out := w_out w ++ [{| o_key := Ok (key_at rk sd l0 l1 l2); o_pos := (l0, l1, l2); o_pub := false; o_rpcs := 1 |}] |}
     /\ served c' rk sd l0 l1 l2.
-Proof.
+Proof using dc_conforming dc_explicit.
   intros G R0 R1 R2 Hp. rewrite (step_finish_unprotect _ _ _ _ _ _ _ G).
   rewrite (unprotect_rpc_outcome _ _ _ _ _ _ 1 R0 R1 R2 Hp). eexists. split; [reflexivity|].
   unfold unprotect_finish. cbv zeta. cbn [snd]. rewrite Hp.
@@ -751,7 +752,7 @@ Theorem no_repeat_rpc evs1 evs2 rk sd l0 l1 l2 l1' l2' : Forall ev_true (evs1 ++
   w_pending (step' w (Start (CProtect sd (Some rk) l0 l1' l2'))) = w_pending w /\
   o_rpcs (fst (unprotect kdf l1seed nokey dc (w_cache w) sd rk l0 l1' l2')) = 0 /\
   o_rpcs (fst (protect kdf l1seed nokey dc (w_cache w) sd (Some rk) l0 l1' l2')) = 0.
-Proof.
+Proof using dc_conforming.
   intros HA Hs Hle w. assert (S : served (w_cache w) rk sd l0 l1' l2')
     by exact (served_grows _ _ _ _ _ _ _ _ _ Hs (monotone evs1 evs2 HA) Hle).
   split; [exact S|]. split; [exact (start_unprotect_served_pending _ _ _ _ _ _ S)|].
@@ -765,7 +766,7 @@ Theorem unprotect_transparent c sd rk l0 l1 l2 : Inv c -> 0 <= l0 -> 0 <= l1 <= 
   Inv (snd (unprotect kdf l1seed nokey dc c sd rk l0 l1 l2)) /\ o_pos o = (l0, l1, l2) /\
   (o_pub o = false -> o_key o = Ok (key_at rk sd l0 l1 l2)) /\
   (served c rk sd l0 l1 l2 -> o_pub o = false /\ o_rpcs o = 0).
-Proof.
+Proof using dc_conforming dc_explicit.
   intros HI R0 R1 R2. unfold unprotect. destruct (get_key' c sd rk l0 l1 l2) as [[e|] c1] eqn:G; cbv zeta.
   - destruct (get_key_sound _ _ _ _ _ _ _ _ HI G) as (HI1 & _ & _ & _ & Hc & _).
     split; [apply Inv_unprotect_finish; auto|].
@@ -783,7 +784,7 @@ Theorem protect_transparent c sd rko l0 l1 l2 : Inv c -> 0 <= l1 <= 31 -> 0 <= l
   Inv (snd (protect kdf l1seed nokey dc c sd rko l0 l1 l2)) /\ good_outcome o /\
   (forall rk, rko = Some rk -> served c rk sd l0 l1 l2 ->
      o = {| o_key := Ok (key_at rk sd l0 l1 l2); o_pos := (l0, l1, l2); o_pub := false; o_rpcs := 0 |}).
-Proof.
+Proof using dc_conforming.
   intros HI R1 R2. unfold protect.
   destruct (protection_gke_cases c sd rko l0 l1 l2)
     as [[-> P]|(rk & -> & [(c1 & G & P)|(e & c1 & G & [(er & D & P)|(k & D & P)])])]; rewrite P; cbv zeta.
@@ -809,7 +810,7 @@ Theorem unprotect_same_as_fresh c sd rk l0 l1 l2 : Inv c -> 0 <= l0 -> 0 <= l1 <
   let o := fst (unprotect kdf l1seed nokey dc c sd rk l0 l1 l2) in
   let o0 := fst (unprotect kdf l1seed nokey dc empty_cache sd rk l0 l1 l2) in
   o_pub o = false -> o_pub o0 = false -> o_key o = o_key o0 /\ o_pos o = o_pos o0.
-Proof.
+Proof using dc_conforming dc_explicit.
   intros HI R0 R1 R2 o o0 Hp Hp0.
   destruct (unprotect_transparent c sd rk l0 l1 l2 HI R0 R1 R2) as (_ & P & Kk & _).
   destruct (unprotect_transparent empty_cache sd rk l0 l1 l2 Inv_empty R0 R1 R2) as (_ & P0 & Kk0 & _).
@@ -840,6 +841,12 @@ Proof.
   - rewrite (step_protect_miss _ _ _ _ _ _ _ P).
     erewrite step_finish_protect by (cbn [w_pending]; rewrite E; reflexivity).
     cbn [w_cache w_pending w_out]. rewrite E. reflexivity.
+Qed.
+(* the envelope _get_protection_gke_from_cache builds is not a conforming envelope (its L1 key field is b"") *)
+Lemma prot_env_not_conf sd rk l0 l1 l2 k : 0 < l1 -> l2 <> 31 ->
+  nokey <> K1 (kdf rk l0) (top rk sd l0) (l1 - 1) -> ~ conf sd (prot_env rk l0 l1 l2 false k).
+Proof.
+  intros R1 R2 N [_ (_ & _ & _ & H)]. destruct (H R2) as [_ H1]. exact (N (H1 R1)).
 Qed.
 End C10.
 
@@ -918,13 +925,45 @@ Proof. vm_compute. reflexivity. Qed.
 
 (* the envelope _get_protection_gke_from_cache builds is not a conforming envelope *)
 Lemma prot_env_not_conforming : ~ conf tkdf tl1seed ttruth 0 (prot_env tnokey 1 361 3 4 false (tkey 1 0 361 3 4)).
-Proof.
-  intros [_ (_ & _ & _ & H)]. cbn [cenv_env prot_env e_l1 e_l2 e_l1key e_l2key c_l1 c_l2 c_k1 c_k2] in H.
-  destruct (H ltac:(lia)) as [_ H1]. specialize (H1 ltac:(lia)). vm_compute in H1. discriminate.
-Qed.
+Proof. apply prot_env_not_conf; [lia|lia|]. vm_compute. discriminate. Qed.
+
+(* "the same as with a fresh cache" needs both runs to obtain private key material: a cache that holds the
+   root key serves a caller the DC refuses (public key only) - that is what loading a root key is for *)
+Definition tdc_refuse := ref_dc tkdf tl1seed tnokey ttruth 1 361 7 5 (fun _ => false).
+Lemma fresh_differs_when_dc_refuses :
+  o_key (fst (unprotect tkdf tl1seed tnokey tdc_refuse (load_key empty_cache 1 (ttruth 1)) 0 1 361 3 4)) = Ok (tkey 1 0 361 3 4) /\
+  o_key (fst (unprotect tkdf tl1seed tnokey tdc_refuse empty_cache 0 1 361 3 4)) = Raise ValueError.
+Proof. vm_compute. split; reflexivity. Qed.
 
 (* the hypothesis on loads matters, with or without a cache: a wrong root key gives a wrong key *)
 Lemma wrong_root_key :
   o_key (fst (unprotect tkdf tl1seed tnokey tdc (load_key empty_cache 1 777) 0 1 361 3 4)) <> Ok (tkey 1 0 361 3 4).
 Proof. vm_compute. discriminate. Qed.
 End Toy.
+
+(* Why the last clause of dc_conforming_ok is there: MS-GKDI lets the DC leave the L2 key field out at
+   L2 = 31.  Such a reply is still `conforming`, but ncrypt_protect_secret takes the key from that
+   field: it would protect with b"" instead of the chain key (candidate defect D13, see C17). *)
+Module ToyD13.
+Import Toy.
+Definition dc13 (sd : Z) (rko : option Z) (l0 l1 l2 : Z) : cenv (K := Z) :=
+  let e := ref_dc tkdf tl1seed tnokey ttruth 1 361 7 31 (fun _ => true) sd rko l0 l1 l2 in
+  if c_l2 e =? 31
+  then {| c_rk := c_rk e; c_l0 := c_l0 e; c_l1 := c_l1 e; c_l2 := c_l2 e; c_pub := c_pub e; c_k1 := c_k1 e; c_k2 := tnokey |}
+  else e.
+Lemma dc13_still_conforming sd rko l0 l1 l2 : let e := dc13 sd rko l0 l1 l2 in
+  conforming (tkdf (c_rk e) (c_l0 e)) (top tl1seed ttruth (c_rk e) sd (c_l0 e)) (cenv_env e).
+Proof.
+  cbv zeta. unfold dc13.
+  destruct (ref_dc_conforming tkdf tl1seed tnokey ttruth 1 361 7 31 (fun _ => true) ltac:(lia) ltac:(lia) sd rko l0 l1 l2 eq_refl)
+    as (_ & _ & (A & B & C & D) & _).
+  set (e := ref_dc tkdf tl1seed tnokey ttruth 1 361 7 31 (fun _ => true) sd rko l0 l1 l2) in *. clearbody e.
+  destruct (c_l2 e =? 31) eqn:E; [|exact (conj A (conj B (conj C D)))].
+  unfold conforming, cenv_env in *. cbn [e_l1 e_l2 e_l1key e_l2key c_rk c_l0 c_l1 c_l2 c_k1 c_k2] in *.
+  split; [exact A|]. split; [exact B|]. split; [exact C|]. intros N. exfalso. lia.
+Qed.
+Lemma l2_key_assumption_needed :
+  let o := fst (protect tkdf tl1seed tnokey dc13 empty_cache 0 None 361 7 31) in
+  o_pub o = false /\ o_pos o = (361, 7, 31) /\ o_key o = Ok tnokey /\ tnokey <> tkey 1 0 361 7 31.
+Proof. vm_compute. repeat split. discriminate. Qed.
+End ToyD13.
